@@ -105,6 +105,8 @@ def subsetShape (shape : List Nat) (dim : Nat) : List Nat := trimTrailing (shape
 def getSubset (null : α) (e : DExt κ α) (dim idx : Nat) : Res (DExt κ α) :=
   if 5 ≤ dim then .valueError
   else if e.shape.length ≤ dim then .indexError
+  else if (e.shape.length == 4 && e.shape.getD 3 1 == 1) || (e.shape.length == 5 && e.shape.getD 4 1 == 1)
+    then .skip "parent with a singleton trailing axis (finding F23 region)"
   else if !e.validB then .skip "invalid parent"
   else if e.shape.getD dim 0 ≤ idx then .skip "index out of range"
   else do
@@ -116,7 +118,12 @@ def getSubset (null : α) (e : DExt κ α) (dim idx : Nat) : Res (DExt κ α) :=
         else if dim < 3 then .ok (some x.2)
         else if dim = 3 then subsetTimeK null sh (some x.2) idx
         else subsetVecK null sh (some x.2) idx
-      (Res.ofExcept out).bind fun ks => .ok (ks.map fun v => (x.1, v))
+      (Res.ofExcept out).bind fun ks =>
+        match ks with
+        | some v =>
+          -- `result.get_class_dict(cls)[key] = …` : KeyError when the (trimmed) result lacks the base
+          if basePresent r0.shp v.1 then .ok (some (x.1, v)) else .otherError
+        | none => .ok none
     let ents ← e.ents.mapM step
     pure { r0 with ents := ents.filterMap id }
 
@@ -172,8 +179,10 @@ def fromSequence (null : α) (es : List (DExt κ α)) (dim : Nat) (sdArg : Optio
       let ents ← ks.mapM one
       pure { r0 with ents := ents.filterMap id }
 
-/-- the hypotheses of the merge theorems hold for this call (`Consistent` result shape, valid
-    inputs of one geometry; time merges of 3-D inputs, vector merges of 3-D or 4-D inputs) -/
+/-- the hypotheses of the merge theorems hold for this call: valid inputs of one geometry and
+    `Consistent` result shape for slice / non-slice spatial merges (`mergeSlice_lookup`,
+    `mergeNonSlice_spec`); 3-D inputs for time merges (`mergeTime_lookup`); 3-D or trimmed 4-D inputs
+    for vector merges (`mergeVec_lookup`) -/
 def fromSequenceInDomain (es : List (DExt κ α)) (dim : Nat) (sdArg : Option Nat) : Bool :=
   match es with
   | [] => false
@@ -181,14 +190,22 @@ def fromSequenceInDomain (es : List (DExt κ α)) (dim : Nat) (sdArg : Option Na
     let outShape := (first.shape ++ List.replicate (dim + 1 - first.shape.length) 1).set dim
       es.length
     let sd := match sdArg with | some d => some d | none => first.sliceDim
-    let sh1 : Shp := ({ first with shape := outShape.set dim 1, sliceDim := sd
-                                   hasTime := decide (3 < outShape.length) && (outShape.getD 3 1 != 1 || outShape.length == 4)
-                                   hasVector := decide (4 < outShape.length) } : DExt κ α).shp
-    rest.all (sameGeom first) && es.all validB && sh1.okB && decide (2 ≤ es.length) &&
-      (if sd = some dim then true
-       else if dim < 3 then true
-       else if dim = 3 then first.shape.length == 3
-       else (first.shape.length == 3 || (first.shape.length == 4 && first.shape.getD 3 1 != 1)))
+    match makeEmpty (κ := κ) (α := α) outShape sd with
+    | .ok r0 =>
+      let sh1 := ({ r0 with shape := outShape.set dim 1 } : DExt κ α).shp
+      let osh := first.shp sd
+      rest.all (sameGeom first) && es.all validB && decide (2 ≤ es.length) && sd.isSome &&
+        first.sliceDim.isSome &&
+        (if sd = some dim then sh1.okB
+         else if dim < 3 then sh1.okB
+         else if dim = 3 then
+           decide (0 < sh1.S) && sh1.nd == 4 && sh1.V == 1 && !sh1.hasVector &&
+             osh.nd == 3 && osh.S == sh1.S && osh.T == 1 && osh.V == 1
+         else
+           decide (0 < sh1.S) && decide (0 < sh1.T) && sh1.nd == 5 && sh1.hasVector &&
+             (!sh1.hasTime || sh1.T != 1) && osh.S == sh1.S && osh.T == sh1.T && osh.V == 1 &&
+             ((osh.nd == 3 && sh1.T == 1) || (osh.nd == 4 && sh1.T != 1)))
+    | _ => false
 
 def getSubsetInDomain (e : DExt κ α) (dim idx : Nat) : Bool :=
   e.shp.okB && e.validB && decide (idx < e.shape.getD dim 0) &&
